@@ -41,6 +41,7 @@ var c08Vars = []c08Var{
 	{"hgsc", true, "geth", false, true, false, false, false},
 	{"hpfc", true, "parity", true, true, false, false, false},
 	{"clf", false, "geth", true, false, false, false, false},
+	{"h?fc", true, "", true, true, false, false, false}, // a host of a kind the pool does not know (stored as "")
 	{"hgfcPaged", true, "geth", true, true, true, true, false},
 	{"hgfcMoved", true, "geth", true, true, false, false, true},
 }
@@ -272,6 +273,25 @@ func c08Judge(c c08Cfg, w *c08World, r c08Result) (string, string) {
 					return "error-although-host-acknowledged", fmt.Sprintf("%s acknowledged the whitelist, yet the request failed: %v", v.name, r.err)
 				}
 			}
+		}
+	}
+	// "an error is returned only when no host could be provided": if the only thing that makes any
+	// active host of the kind ineligible is that it already is the requester's peer, and at least
+	// one other exists (all of them connected and acknowledging), a host can be provided
+	if r.err != nil && limit > 0 {
+		others, clean := 0, true
+		for i, vi := range c.pop {
+			v := c08Vars[vi]
+			if !v.host || !v.fresh || (c.kind != "" && v.kind != c.kind) || v.peer {
+				continue
+			}
+			others++
+			if !v.connected || (i < len(c.modes) && c.modes[i] != vh.HostAck) {
+				clean = false
+			}
+		}
+		if others > 0 && clean {
+			return "error-although-hosts-available", fmt.Sprintf("%d active hosts of the kind that are not yet peers are connected and acknowledge, yet the request failed: %v", others, r.err)
 		}
 	}
 	// completeness: every active host of the kind is eligible and acks
